@@ -8,8 +8,10 @@
  *   ent k=v ...                             -> h=<st> w=<n>:<st> f=<st> len=<archive bytes so far, bpb=0 only>
  *   close | abort                           -> c=<st> len= hash= [hex=] fmt=<detected code> n=<entries read> end=<st>
  *   rd <i>                                  -> the i-th entry read back
+ *   done                                    -> done   (the oracle engines answer here)
  */
 #include "common.h"
+#include <locale.h>
 #include <archive.h>
 #include <archive_entry.h>
 #include "codec_inc.h"
@@ -67,9 +69,12 @@ static struct archive *wa;
 static unsigned char *sink; static size_t sink_len, sink_cap;
 static int w_bpb;
 
+static int sink_fail;   /* abort mode: every further write fails, so close gives up at once */
+
 static la_ssize_t sink_write(struct archive *a, void *d, const void *b, size_t n)
 {
 	(void)a; (void)d;
+	if (sink_fail) { archive_set_error(a, 5, "sink closed"); return -1; }
 	if (sink_len + n > (64u << 20)) return -1;
 	if (sink_len + n > sink_cap) {
 		sink_cap = (sink_len + n) * 2 + 4096; sink = realloc(sink, sink_cap);
@@ -237,7 +242,7 @@ static void read_back(int partial, int *fmt, int *end)
 		struct archive_entry *e;
 		st = archive_read_next_header(r, &e);
 		if (*fmt == 0 || st >= ARCHIVE_WARN) *fmt = archive_format(r);
-		if (st < ARCHIVE_WARN || st == ARCHIVE_EOF) break;
+		if (st < ARCHIVE_WARN || st == ARCHIVE_EOF || st == ARCHIVE_RETRY) break;
 		if (nrb >= MAXENT) { st = -99; break; }
 		const char *p = archive_entry_pathname(e);
 		size_t cap = 2 * ((p ? strlen(p) : 0) + 4096 * 3) + 1024;
@@ -275,7 +280,10 @@ static void op_close(int abort_)
 {
 	if (!wa) { printf("bad-op\n"); return; }
 	int c;
-	if (abort_) { archive_write_fail(wa); c = 0; } else c = archive_write_close(wa);
+	/* abort: keep exactly the bytes produced so far (a declared 8 GiB body is never written):
+	 * the sink refuses everything from now on, close fails fast and still releases the filters */
+	if (abort_) { sink_fail = 1; (void)archive_write_close(wa); sink_fail = 0; c = 0; }
+	else c = archive_write_close(wa);
 	archive_write_free(wa); wa = NULL;
 	int fmt, end;
 	read_back(abort_, &fmt, &end);
@@ -285,7 +293,7 @@ static void op_close(int abort_)
 	printf(" fmt=%x n=%d end=%s\n", fmt, nrb, end == -99 ? "toomany" : vh_st(end));
 }
 
-static void c_begin(void) { wa = NULL; nrb = 0; sink_len = 0; }
+static void c_begin(void) { wa = NULL; nrb = 0; sink_len = 0; sink_fail = 0; }
 
 static void c_op(char *line)
 {
@@ -297,13 +305,14 @@ static void c_op(char *line)
 	else if (!strcmp(w[0], "ent")) op_ent(w, n);
 	else if (!strcmp(w[0], "close")) op_close(0);
 	else if (!strcmp(w[0], "abort")) op_close(1);
+	else if (!strcmp(w[0], "done")) printf("done\n");
 	else if (!strcmp(w[0], "rd") && n == 2) { int i = atoi(w[1]); if (i >= 0 && i < nrb) printf("%s\n", rb[i]); else printf("none\n"); }
 	else printf("bad-op\n");
 }
 
 static void c_end(void)
 {
-	if (wa) { archive_write_fail(wa); archive_write_free(wa); wa = NULL; }
+	if (wa) { sink_fail = 1; archive_write_free(wa); wa = NULL; sink_fail = 0; }
 	for (int i = 0; i < nrb; i++) free(rb[i]);
 	nrb = 0; free(sink); sink = NULL; sink_cap = sink_len = 0;
 }
@@ -311,5 +320,6 @@ static void c_end(void)
 int main(int argc, char **argv)
 {
 	struct vh_engine e = { c_begin, c_op, c_end };
+	setlocale(LC_ALL, "");   /* C.UTF-8 from the environment: writers that convert names need it */
 	return vh_main(argc, argv, &e);
 }
